@@ -399,6 +399,8 @@ func (fx *FuncExec) prescan(body *ast.BlockStmt) {
 					if v, ok := fx.info.Uses[id].(*types.Var); ok && !v.IsField() {
 						if fx.structValInfo(v.Type()) == nil {
 							fx.boxed[v] = true
+						} else {
+							fx.addrTaken[v] = true
 						}
 					}
 				}
@@ -414,6 +416,8 @@ func (fx *FuncExec) prescan(body *ast.BlockStmt) {
 									if v, ok := fx.info.Uses[id].(*types.Var); ok && !v.IsField() {
 										if _, vp := v.Type().Underlying().(*types.Pointer); !vp && fx.structValInfo(v.Type()) == nil {
 											fx.boxed[v] = true
+										} else if !vp {
+											fx.addrTaken[v] = true
 										}
 									}
 								}
